@@ -866,9 +866,12 @@ func (q *TransferQueue) handleTransferResult(
 			// HTTP 422).
 			if errors.IsUnprocessableEntityError(res.Error) {
 				q.unsupportedContentType = true
-			} else {
-				q.errorc <- res.Error
 			}
+			// The object was not transferred: always report that,
+			// so that the caller does not mistake the operation for
+			// a success (the hint about Content-Type detection is
+			// printed in addition, by Wait()).
+			q.errorc <- res.Error
 			q.wait.Done()
 		}
 	} else {
